@@ -18,6 +18,11 @@
 //!   c09cs    <alpha> <L> <syms…>                                     count_symbol / count_symbols
 //!            -> <K counts> | <K counts>
 //!   c09laws  -                                                       2.0==2.0, log2/log10/ln of 0.0, -inf, empty sum, 0.01, 10.0
+//!
+//! Alternative entry points (oracle only, no change of the case lines or of the answers): on a share of
+//! the cases chosen by a hash of the case line (`share`), every other public way of reaching the same
+//! functionality is driven too and must agree with the main route — see `pipe_alt`, `seqs_alt`,
+//! `bg_alt`, `fnew_alt`, `score_alt`.  A disagreement is an oracle failure naming the entry point.
 use crate::out::*;
 use crate::rng::Rng;
 use crate::Cfg;
@@ -37,6 +42,8 @@ use lightmotif::pwm::ScoringMatrix;
 use lightmotif::seq::EncodedSequence;
 use lightmotif::seq::StripedSequence;
 use lightmotif::seq::SymbolCount;
+use lightmotif::pwm::WeightMatrix;
+use std::sync::atomic::{AtomicUsize, Ordering};
 use typenum::Unsigned;
 use typenum::U32;
 
@@ -66,11 +73,12 @@ pub fn fbs<'a>(xs: impl IntoIterator<Item = &'a f32>) -> String {
 pub struct Tok<'a> {
     t: Vec<&'a str>,
     i: usize,
+    pub line: &'a str,
 }
 
 impl<'a> Tok<'a> {
     pub fn new(line: &'a str) -> Self {
-        Tok { t: line.split_whitespace().collect(), i: 0 }
+        Tok { t: line.split_whitespace().collect(), i: 0, line }
     }
     pub fn next(&mut self) -> &'a str {
         let x = self.t[self.i];
@@ -251,11 +259,11 @@ fn answer_of(r: Result<f32, ()>) -> String {
     }
 }
 
-type Verdict = (String, Option<Result<(), String>>, bool);
+pub type Verdict = (String, Option<Result<(), String>>, bool);
 
 // ------------------------------------------------------------------------------------ c09seqs
 
-fn seqs_case<A: Alphabet>(t: &mut Tok) -> Verdict {
+fn seqs_main<A: Alphabet>(t: &mut Tok) -> Verdict {
     let k = A::K::USIZE;
     let n = t.nat();
     let seqs = t.seqs(n);
@@ -478,7 +486,7 @@ fn pipe_oracle(k: usize, rows: usize, counts: &[u32], p: &Pseudo, bg: &Bg, base:
     Ok(())
 }
 
-fn pipe_case<A: Alphabet>(t: &mut Tok) -> Verdict {
+fn pipe_main<A: Alphabet>(t: &mut Tok) -> Verdict {
     let k = A::K::USIZE;
     let rows = t.nat();
     let counts: Vec<u32> = t.nats(rows * k).iter().map(|x| *x as u32).collect();
@@ -522,7 +530,7 @@ fn pipe_case<A: Alphabet>(t: &mut Tok) -> Verdict {
 
 // ------------------------------------------------------------------------------------ c09bg
 
-fn bg_case<A: Alphabet>(t: &mut Tok) -> Verdict {
+fn bg_main<A: Alphabet>(t: &mut Tok) -> Verdict {
     let k = A::K::USIZE;
     let kind = t.next();
     let lin = |s: &[usize], unknown: bool| -> Vec<usize> {
@@ -595,7 +603,7 @@ fn bg_case<A: Alphabet>(t: &mut Tok) -> Verdict {
 
 // ------------------------------------------------------------------------------------ c09fnew
 
-fn fnew_case<A: Alphabet>(t: &mut Tok) -> Verdict {
+fn fnew_main<A: Alphabet>(t: &mut Tok) -> Verdict {
     let k = A::K::USIZE;
     let rows = t.nat();
     let d = t.f32s(rows * k);
@@ -621,7 +629,7 @@ fn fnew_case<A: Alphabet>(t: &mut Tok) -> Verdict {
 
 // ------------------------------------------------------------------------------------ c09score
 
-fn score_case<A: Alphabet>(t: &mut Tok) -> Verdict {
+fn score_main<A: Alphabet>(t: &mut Tok) -> Verdict {
     let k = A::K::USIZE;
     let rows = t.nat();
     let d = t.f32s(rows * k);
@@ -720,6 +728,619 @@ fn cs_case<A: Alphabet>(t: &mut Tok) -> Verdict {
             (format!("{} | {}", join(one.iter()), join(all.iter())), Some(o), l > 0)
         }
     }
+}
+
+// ------------------------------------------------------------------------------------ alternative entry points
+//
+// The main clauses above drive ONE route to each result (the one whose answer is compared with the
+// model).  The library offers others: secondary constructors, `From`/`Into`/`Default`/`Clone`/
+// `PartialEq`/`Index`/`AsRef` impls, by-value twins of by-reference conversions.  They are driven here
+// on a share of the cases and must give what the main route gave; nothing of this reaches the answer
+// string, a disagreement is an oracle failure that names the entry point.
+
+/// number of cases on which the alternative entry points were driven (reported in the stats)
+pub static ALT: AtomicUsize = AtomicUsize::new(0);
+
+/// one case in `den`, chosen by a hash of the case line (so that a replayed line behaves the same)
+pub fn share(line: &str, den: u64) -> bool {
+    fnv_nats(line.bytes().map(|b| b as usize)) % den == 0
+}
+
+/// the alternative-entry-point clause `f`, evaluated only when the main clause holds
+pub fn with_alt(main: Result<(), String>, f: impl FnOnce() -> Result<(), String>) -> Result<(), String> {
+    main?;
+    ALT.fetch_add(1, Ordering::Relaxed);
+    match guarded(f) {
+        Ok(r) => r.map_err(|e| format!("alternative entry point: {}", e)),
+        Err(()) => Err("alternative entry point: panic".into()),
+    }
+}
+
+/// cell identity: the value, every NaN being the same cell
+pub trait CellKey: MatrixElement {
+    fn key(&self) -> u64;
+}
+impl CellKey for u32 {
+    fn key(&self) -> u64 {
+        *self as u64
+    }
+}
+impl CellKey for u8 {
+    fn key(&self) -> u64 {
+        *self as u64
+    }
+}
+impl CellKey for f32 {
+    fn key(&self) -> u64 {
+        if self.is_nan() {
+            u64::MAX
+        } else {
+            self.to_bits() as u64
+        }
+    }
+}
+pub fn keys<T: CellKey>(xs: &[T]) -> Vec<u64> {
+    xs.iter().map(|x| x.key()).collect()
+}
+pub fn mkeys<T: CellKey, A: Alphabet>(m: &DenseMatrix<T, A::K>) -> Vec<u64> {
+    keys(&flat::<T, A>(m))
+}
+
+/// `matrix()`, `len()`, `is_empty()`, `Index<usize>`, `AsRef<DenseMatrix>`, `AsRef<Self>`, `Clone`
+/// and `PartialEq` of one of the matrix types (they share no trait: a macro)
+#[macro_export]
+macro_rules! c09_accessors {
+    ($A:ty, $t:ty, $mx:ident, $m:expr) => {{
+        let m: &$mx<$A> = &$m;
+        let what = stringify!($mx);
+        let d: &DenseMatrix<$t, <$A as Alphabet>::K> = m.matrix();
+        let r: &DenseMatrix<$t, <$A as Alphabet>::K> = m.as_ref();
+        let me: &$mx<$A> = m.as_ref();
+        let rows = d.rows();
+        if m.len() != rows || r.rows() != rows || me.len() != rows {
+            return Err(format!("{}: len() = {}, as_ref() has {} rows but matrix() has {} rows", what, m.len(), r.rows(), rows));
+        }
+        if m.is_empty() != (rows == 0) {
+            return Err(format!("{}: is_empty() = {} with {} rows", what, m.is_empty(), rows));
+        }
+        for i in 0..rows {
+            if $crate::c09::keys(&m[i]) != $crate::c09::keys(&d[i]) || $crate::c09::keys(&r[i]) != $crate::c09::keys(&d[i]) {
+                return Err(format!("{}: row {} through Index<usize> / AsRef differs from matrix()", what, i));
+            }
+        }
+        let c = m.clone();
+        let cells = $crate::c09::mkeys::<$t, $A>(d);
+        if $crate::c09::mkeys::<$t, $A>(c.matrix()) != cells {
+            return Err(format!("{}: clone() has other cells", what));
+        }
+        if !cells.contains(&u64::MAX) && c != *m {
+            return Err(format!("{}: clone() is not equal to the original (PartialEq)", what));
+        }
+    }};
+}
+
+fn bgkeys<A: Alphabet + PartialEq>(b: &Background<A>) -> Vec<u64>
+where
+    A::K: PartialEq,
+{
+    keys(b.frequencies())
+}
+
+/// the accessors of a background: `frequencies()`, both `AsRef`, `Index<Symbol>`, `Clone`, `PartialEq`
+pub fn bg_accessors<A: Alphabet + PartialEq>(b: &Background<A>) -> Result<(), String>
+where
+    A::K: PartialEq,
+{
+    let f = b.frequencies();
+    let s: &[f32] = b.as_ref();
+    let g: &GenericArray<f32, A::K> = b.as_ref();
+    if f.len() != A::K::USIZE || keys(s) != keys(f) || keys(&g[..]) != keys(f) {
+        return Err("Background: as_ref() differs from frequencies()".into());
+    }
+    for (j, sym) in A::symbols().iter().enumerate() {
+        if b[*sym].key() != f[j].key() {
+            return Err(format!("Background: Index<Symbol> gives {} for symbol {} but frequencies()[{}] = {}", b[*sym], j, j, f[j]));
+        }
+    }
+    let c = b.clone();
+    if bgkeys(&c) != keys(f) || c != *b {
+        return Err("Background: clone() differs from the original".into());
+    }
+    Ok(())
+}
+
+/// `n` aligned sequences whose count matrix is `counts` (every row total is `n`)
+fn seqs_of_counts<A: Alphabet>(rows: usize, counts: &[u32], n: usize) -> Vec<EncodedSequence<A>> {
+    let k = A::K::USIZE;
+    let cols: Vec<Vec<usize>> = (0..rows).map(|i| (0..k).flat_map(|a| std::iter::repeat(a).take(counts[i * k + a] as usize)).collect()).collect();
+    // a different rotation in every column: the sequences are not sorted
+    (0..n).map(|j| encoded::<A>(&(0..rows).map(|i| cols[i][(j + i) % n]).collect::<Vec<_>>())).collect()
+}
+
+fn same_counts<A: Alphabet + PartialEq>(name: &str, a: &Result<CountMatrix<A>, lightmotif::err::InvalidData>, b: &Result<CountMatrix<A>, lightmotif::err::InvalidData>) -> Result<(), String>
+where
+    A::K: PartialEq,
+{
+    match (a, b) {
+        (Ok(x), Ok(y)) => {
+            if mkeys::<u32, A>(x.matrix()) != mkeys::<u32, A>(y.matrix()) || x.sequence_count() != y.sequence_count() || x != y {
+                return Err(format!("{} gives another count matrix than from_sequences(iter of references)", name));
+            }
+        }
+        (Err(_), Err(_)) => {}
+        _ => return Err(format!("{} accepts/rejects differently from from_sequences(iter of references)", name)),
+    }
+    Ok(())
+}
+
+fn seqs_alt<A: Alphabet + PartialEq>(enc: &[EncodedSequence<A>]) -> Result<(), String>
+where
+    A::K: PartialEq,
+{
+    let a = CountMatrix::<A>::from_sequences(enc.iter());
+    let v: Vec<EncodedSequence<A>> = enc.to_vec();
+    same_counts("from_sequences(&Vec)", &a, &CountMatrix::<A>::from_sequences(&v))?;
+    same_counts("from_sequences(slice)", &a, &CountMatrix::<A>::from_sequences(enc))?;
+    same_counts("from_sequences(Vec) by value", &a, &CountMatrix::<A>::from_sequences(v))?;
+    if let Ok(x) = &a {
+        c09_accessors!(A, u32, CountMatrix, *x);
+        if x.len() > 0 {
+            // the same counts through `new`: every row total is the number of sequences
+            let y = CountMatrix::<A>::new(x.matrix().clone()).map_err(|_| "CountMatrix::new rejects the counts of from_sequences".to_string())?;
+            if y.sequence_count() != x.sequence_count() || y != *x {
+                return Err(format!("CountMatrix::new on the counts of from_sequences: sequence_count {} vs {} or not equal (PartialEq)", y.sequence_count(), x.sequence_count()));
+            }
+            // PartialEq sees one sequence less
+            if let Ok(z) = CountMatrix::<A>::from_sequences(enc[..enc.len() - 1].iter()) {
+                if z == *x {
+                    return Err("CountMatrix: PartialEq holds between the matrices of n and n-1 sequences".into());
+                }
+            }
+        }
+    }
+    Ok(())
+}
+
+fn pipe_alt<A: Alphabet + PartialEq>(rows: usize, counts: &[u32], p: &Pseudo, bg: &Bg, base: f32, bg2: &Bg) -> Result<(), String>
+where
+    A::K: PartialEq,
+{
+    let k = A::K::USIZE;
+    let data = dense::<u32, A>(rows, counts);
+    let c = CountMatrix::<A>::new(data.clone()).map_err(|_| "CountMatrix::new rejected".to_string())?;
+    if mkeys::<u32, A>(c.matrix()) != keys(counts) {
+        return Err("CountMatrix::new: matrix() is not the data given".into());
+    }
+    c09_accessors!(A, u32, CountMatrix, c);
+    if rows > 0 {
+        let mut other = data.clone();
+        other[rows - 1][0] = other[rows - 1][0].wrapping_add(1);
+        if CountMatrix::<A>::new(other).map(|o| o == c).unwrap_or(false) {
+            return Err("CountMatrix: PartialEq holds between matrices that differ in one cell".into());
+        }
+    }
+    // counts of aligned sequences: `from_sequences` on such sequences is the same matrix
+    let sums: Vec<usize> = (0..rows).map(|i| counts[i * k..(i + 1) * k].iter().map(|x| *x as usize).sum()).collect();
+    if rows > 0 && sums[0] >= 1 && sums[0] <= 64 && sums.iter().all(|s| *s == sums[0]) {
+        let seqs = seqs_of_counts::<A>(rows, counts, sums[0]);
+        match CountMatrix::<A>::from_sequences(seqs.iter()) {
+            Ok(x) if x == c && x.sequence_count() == c.sequence_count() => {}
+            _ => return Err("from_sequences on sequences with these counts is not CountMatrix::new of the counts".into()),
+        }
+    }
+
+    // ---- pseudocounts: From<f32>, From<array>, Default, counts(), AsRef/AsMut
+    let pc = make_pseudo::<A>(p);
+    let want: Vec<f32> = match p {
+        Pseudo::U(x) => (0..k).map(|j| if j + 1 == k { 0.0 } else { *x }).collect(),
+        Pseudo::A(v) => v.clone(),
+    };
+    let as_slice: &[f32] = pc.as_ref();
+    if keys(&pc.counts()[..]) != keys(&want) || keys(as_slice) != keys(&want) {
+        return Err(format!("Pseudocounts: counts() = {:?} but {:?} were given", pc.counts(), want));
+    }
+    let mut pm = Pseudocounts::<A>::default();
+    if pm.counts().iter().any(|x| x.to_bits() != 0) || pm != Pseudocounts::<A>::from(0.0) {
+        return Err(format!("Pseudocounts::default() = {:?}, not zero", pm.counts()));
+    }
+    // a default filled in through AsMut is the array constructor
+    AsMut::<[f32]>::as_mut(&mut pm).copy_from_slice(&want);
+    if keys(&pm.counts()[..]) != keys(&want) || (!want.iter().any(|x| x.is_nan()) && (pm != pc || pc.clone() != pc)) {
+        return Err("Pseudocounts: default() + as_mut() / clone() is not equal to the constructed one".into());
+    }
+    let f = c.to_freq(pc.clone());
+    let fk = mkeys::<f32, A>(f.matrix());
+    let f2 = match p {
+        Pseudo::U(x) => c.to_freq(*x),
+        Pseudo::A(v) => c.to_freq(garr::<f32, A>(v)),
+    };
+    if mkeys::<f32, A>(f2.matrix()) != fk {
+        return Err("to_freq(f32 / array) differs from to_freq(Pseudocounts)".into());
+    }
+    if mkeys::<f32, A>(c.to_freq(Pseudocounts::<A>::from(garr::<f32, A>(&want))).matrix()) != fk || mkeys::<f32, A>(c.to_freq(pm).matrix()) != fk {
+        return Err("to_freq with the scalar pseudocount differs from to_freq with the equivalent array".into());
+    }
+    if want.iter().all(|x| x.to_bits() == 0) && mkeys::<f32, A>(c.to_freq(Pseudocounts::<A>::default()).matrix()) != fk {
+        return Err("to_freq(Pseudocounts::default()) differs from to_freq(0.0)".into());
+    }
+    c09_accessors!(A, f32, FrequencyMatrix, f);
+
+    // ---- weight / scoring routes
+    let b = match make_bg::<A>(bg) {
+        Err(()) => return Ok(()),
+        Ok(b) => b,
+    };
+    let bgobj = b.clone().unwrap_or_default();
+    bg_accessors(&bgobj)?;
+    let w = f.to_weight(b.clone());
+    let wk = mkeys::<f32, A>(w.matrix());
+    let s1 = f.to_scoring(b.clone());
+    let s1k = mkeys::<f32, A>(s1.matrix());
+    // the background given as an object / as Some(object) / (when it is the default one) as None,
+    // Background::default(), Background::uniform()
+    let mut bgs: Vec<(&str, Option<Background<A>>)> = vec![("Some(background)", Some(bgobj.clone()))];
+    if matches!(bg, Bg::None | Bg::Uniform) {
+        bgs.push(("None", None));
+        bgs.push(("Background::default()", Some(Background::<A>::default())));
+        bgs.push(("Background::uniform()", Some(Background::<A>::uniform())));
+    }
+    for (name, x) in &bgs {
+        let w2 = f.to_weight(x.clone());
+        if mkeys::<f32, A>(w2.matrix()) != wk || bgkeys(w2.background()) != bgkeys(&bgobj) {
+            return Err(format!("to_weight({}) differs from to_weight of the background of the case", name));
+        }
+        let s2 = f.to_scoring(x.clone());
+        let s3 = f.clone().into_scoring(x.clone());
+        if mkeys::<f32, A>(s2.matrix()) != s1k || mkeys::<f32, A>(s3.matrix()) != s1k || bgkeys(s2.background()) != bgkeys(&bgobj) || bgkeys(s3.background()) != bgkeys(&bgobj) {
+            return Err(format!("to_scoring({}) / into_scoring({}) differs from to_scoring of the background of the case", name, name));
+        }
+    }
+    if let Some(x) = &b {
+        // passed without the Option
+        if mkeys::<f32, A>(f.to_weight(x.clone()).matrix()) != wk || mkeys::<f32, A>(f.to_scoring(x.clone()).matrix()) != s1k || mkeys::<f32, A>(f.clone().into_scoring(x.clone()).matrix()) != s1k {
+            return Err("to_weight / to_scoring / into_scoring (background passed directly) differs from the Option route".into());
+        }
+    }
+    // one step = two steps in base 2, whatever the base of the case
+    let t = w.to_scoring();
+    let t2 = w.to_scoring_with_base(2.0);
+    if mkeys::<f32, A>(t.matrix()) != mkeys::<f32, A>(t2.matrix()) || bgkeys(t.background()) != bgkeys(&bgobj) {
+        return Err("WeightMatrix::to_scoring() differs from to_scoring_with_base(2.0)".into());
+    }
+    if mkeys::<f32, A>(t.matrix()) != s1k {
+        return Err("to_weight(..).to_scoring() differs from FrequencyMatrix::to_scoring".into());
+    }
+    // the From impls between weight and scoring matrices keep the background (their cells are the
+    // business of the c09x stream)
+    if bgkeys(WeightMatrix::<A>::from(s1.clone()).background()) != bgkeys(&bgobj) || bgkeys(ScoringMatrix::<A>::from(w.clone()).background()) != bgkeys(&bgobj) {
+        return Err("WeightMatrix::from(ScoringMatrix) / ScoringMatrix::from(WeightMatrix) does not keep the background".into());
+    }
+    // rescaling to the background the matrix already has is the identity; the result carries the
+    // background asked for
+    let r0 = w.rescale(w.background().clone());
+    if mkeys::<f32, A>(r0.matrix()) != wk || bgkeys(r0.background()) != bgkeys(&bgobj) {
+        return Err("rescale(own background) is not the identity".into());
+    }
+    if matches!(bg, Bg::None | Bg::Uniform) {
+        let r1 = w.rescale(None);
+        if mkeys::<f32, A>(r1.matrix()) != wk || bgkeys(r1.background()) != bgkeys(&bgobj) {
+            return Err("rescale(None) of a matrix over the default background is not the identity".into());
+        }
+    }
+    if let Ok(b2) = make_bg::<A>(bg2) {
+        let r = w.rescale(b2.clone());
+        // (as numbers: a background equal to the old one up to the sign of a zero keeps the old object)
+        if r.background().frequencies() != b2.clone().unwrap_or_default().frequencies() {
+            return Err("rescale: background() of the result is not the background asked for".into());
+        }
+        if let Some(x) = b2 {
+            if mkeys::<f32, A>(w.rescale(x).matrix()) != mkeys::<f32, A>(r.matrix()) {
+                return Err("rescale(background passed directly) differs from rescale(Some(background))".into());
+            }
+        }
+        c09_accessors!(A, f32, WeightMatrix, r);
+    }
+    let s = w.to_scoring_with_base(base);
+    c09_accessors!(A, f32, WeightMatrix, w);
+    c09_accessors!(A, f32, ScoringMatrix, s);
+    c09_accessors!(A, f32, ScoringMatrix, s1);
+    // min_score / max_score do not depend on how the matrix was reached
+    let rebuilt = ScoringMatrix::<A>::new(s.background().clone(), s.matrix().clone());
+    for (name, g) in [("min_score", ScoringMatrix::<A>::min_score as fn(&ScoringMatrix<A>) -> f32), ("max_score", ScoringMatrix::<A>::max_score as fn(&ScoringMatrix<A>) -> f32)] {
+        let x = guarded(|| g(&s)).map(|x| x.key());
+        if guarded(|| g(&rebuilt)).map(|x| x.key()) != x || guarded(|| g(&s.clone())).map(|x| x.key()) != x {
+            return Err(format!("{} of ScoringMatrix::new(background(), matrix()) / of a clone differs", name));
+        }
+    }
+    // PartialEq of the f32 matrices sees a changed cell and a changed background
+    if rows > 0 && !s1k.contains(&u64::MAX) {
+        let mut d = s1.matrix().clone();
+        d[0][0] = if d[0][0] == 1.0 { 2.0 } else { 1.0 };
+        if ScoringMatrix::<A>::new(bgobj.clone(), d) == s1 {
+            return Err("ScoringMatrix: PartialEq holds between matrices that differ in one cell".into());
+        }
+        let mut pm = vec![0.0f32; k];
+        pm[if bgobj.frequencies()[0] == 1.0 { 1 } else { 0 }] = 1.0;
+        let other = Background::<A>::new(garr::<f32, A>(&pm)).map_err(|_| "Background::new rejects a point mass".to_string())?;
+        if ScoringMatrix::<A>::new(other.clone(), s1.matrix().clone()) == s1 || other == bgobj {
+            return Err("ScoringMatrix / Background: PartialEq holds between different backgrounds".into());
+        }
+    }
+    Ok(())
+}
+
+fn same_bg<A: Alphabet + PartialEq>(name: &str, main: &Result<Vec<f32>, ()>, alt: Result<Background<A>, lightmotif::err::InvalidData>) -> Result<(), String>
+where
+    A::K: PartialEq,
+{
+    match (main, alt) {
+        (Ok(f), Ok(b)) => {
+            if keys(f) != bgkeys(&b) {
+                return Err(format!("{} gives {:?} but the constructor of the case gave {:?}", name, b.frequencies(), f));
+            }
+            bg_accessors(&b)
+        }
+        (Err(()), Err(_)) => Ok(()),
+        (Ok(_), Err(_)) => Err(format!("{} rejects what the constructor of the case accepted", name)),
+        (Err(()), Ok(_)) => Err(format!("{} accepts what the constructor of the case rejected", name)),
+    }
+}
+
+/// the other constructors on the same symbol counts: `ss` = the sequences, `main_*` = what the
+/// constructor of the case gave with / what `from_counts` must give for `unknown`
+fn bg_routes<A: Alphabet + PartialEq>(ss: &[Vec<usize>], unknown: bool, main: &Result<Vec<f32>, ()>) -> Result<(), String>
+where
+    A::K: PartialEq,
+{
+    let k = A::K::USIZE;
+    let all: Vec<usize> = ss.concat();
+    let lin: Vec<usize> = (0..k).map(|a| if unknown || a + 1 != k { all.iter().filter(|x| **x == a).count() } else { 0 }).collect();
+    let u = if unknown { "true" } else { "false" };
+    same_bg::<A>(&format!("from_counts(symbol counts, unknown = {})", u), main, Background::<A>::from_counts(&garr::<usize, A>(&lin)))?;
+    let whole = encoded::<A>(&all);
+    let syms: Vec<A::Symbol> = whole.iter().cloned().collect();
+    same_bg::<A>(&format!("from_sequence(EncodedSequence, {})", u), main, Background::<A>::from_sequence(whole.clone(), unknown))?;
+    same_bg::<A>(&format!("from_sequence(slice, {})", u), main, Background::<A>::from_sequence(&syms[..], unknown))?;
+    same_bg::<A>(&format!("from_sequence(StripedSequence, {})", u), main, Background::<A>::from_sequence(striped::<A>(&all), unknown))?;
+    let es: Vec<EncodedSequence<A>> = ss.iter().map(|s| encoded::<A>(s)).collect();
+    let sl: Vec<Vec<A::Symbol>> = es.iter().map(|e| e.iter().cloned().collect()).collect();
+    same_bg::<A>(&format!("from_sequences(EncodedSequence…, {})", u), main, Background::<A>::from_sequences(es.clone(), unknown))?;
+    same_bg::<A>(&format!("from_sequences(slice…, {})", u), main, Background::<A>::from_sequences(sl.iter().map(|v| &v[..]), unknown))?;
+    same_bg::<A>(&format!("from_sequences(StripedSequence…, {})", u), main, Background::<A>::from_sequences(ss.iter().map(|s| striped::<A>(s)), unknown))?;
+    // cut elsewhere: one sequence, and the concatenation split in two
+    same_bg::<A>(&format!("from_sequences([whole], {})", u), main, Background::<A>::from_sequences(std::iter::once(whole), unknown))?;
+    let (x, y) = syms.split_at(syms.len() / 2);
+    same_bg::<A>(&format!("from_sequences([half, half], {})", u), main, Background::<A>::from_sequences([x, y], unknown))?;
+    Ok(())
+}
+
+fn bg_alt<A: Alphabet + PartialEq>(line: &str, main: &Result<Vec<f32>, ()>) -> Result<(), String>
+where
+    A::K: PartialEq,
+{
+    let k = A::K::USIZE;
+    let mut t = Tok::new(line);
+    t.next();
+    t.next();
+    let from_counts = |c: &[usize]| Background::<A>::from_counts(&garr::<usize, A>(c)).map(|b| b.frequencies().to_vec()).map_err(|_| ());
+    match t.next() {
+        "new" => {
+            let v = t.f32s(k);
+            let b = Background::<A>::new(garr::<f32, A>(&v));
+            same_bg::<A>("Background::new (again)", main, b.clone())?;
+            if let Ok(b) = b {
+                if keys(b.frequencies()) != keys(&v) {
+                    return Err("Background::new: frequencies() are not the ones given".into());
+                }
+                // dyadic frequencies n/1024: `from_counts` of the numerators is the same background
+                let n: Vec<f32> = v.iter().map(|x| x * 1024.0).collect();
+                if n.iter().all(|x| x.fract() == 0.0) && n.iter().sum::<f32>() == 1024.0 {
+                    let c: Vec<usize> = n.iter().map(|x| *x as usize).collect();
+                    match Background::<A>::from_counts(&garr::<usize, A>(&c)) {
+                        Ok(o) if o.frequencies().iter().zip(&v).all(|(a, b)| a == b) => {}
+                        _ => return Err("from_counts of the numerators of dyadic frequencies differs from Background::new of the frequencies".into()),
+                    }
+                }
+                let uni = Background::<A>::uniform();
+                if (b == uni) != (keys(b.frequencies()) == bgkeys(&uni)) && !v.iter().any(|x| x.to_bits() == (-0.0f32).to_bits()) {
+                    return Err("Background: PartialEq with the uniform background is wrong".into());
+                }
+            }
+        }
+        "counts" => {
+            let c = t.nats(k);
+            if c.iter().sum::<usize>() <= 30_000 {
+                // sequences with exactly these counts, the wildcard counted; and not counted
+                let all: Vec<usize> = (0..c.iter().cloned().max().unwrap_or(0)).flat_map(|i| (0..k).filter(|a| c[*a] > i).collect::<Vec<_>>()).collect();
+                let cut = all.len() / 3;
+                let ss = vec![all[..cut].to_vec(), Vec::new(), all[cut..].to_vec()];
+                bg_routes::<A>(&ss, true, main)?;
+                let mut c0 = c.clone();
+                c0[k - 1] = 0;
+                bg_routes::<A>(&ss, false, &from_counts(&c0))?;
+            }
+        }
+        kind @ ("seq" | "seqs") => {
+            let unknown = t.nat() == 1;
+            let ss = if kind == "seq" {
+                let l = t.nat();
+                vec![t.nats(l)]
+            } else {
+                let n = t.nat();
+                t.seqs(n)
+            };
+            bg_routes::<A>(&ss, unknown, main)?;
+            // the other value of `unknown` on the same sequences
+            let all: Vec<usize> = ss.concat();
+            let lin: Vec<usize> = (0..k).map(|a| if !unknown || a + 1 != k { all.iter().filter(|x| **x == a).count() } else { 0 }).collect();
+            bg_routes::<A>(&ss, !unknown, &from_counts(&lin))?;
+        }
+        _ => {
+            same_bg::<A>("Background::default()", main, Ok(Background::<A>::default()))?;
+            same_bg::<A>("Option::<Background>::None.unwrap_or_default()", main, Ok(Option::<Background<A>>::None.unwrap_or_default()))?;
+            if Background::<A>::default() != Background::<A>::uniform() {
+                return Err("Background::default() != Background::uniform()".into());
+            }
+        }
+    }
+    Ok(())
+}
+
+fn fnew_alt<A: Alphabet + PartialEq>(rows: usize, d: &[f32]) -> Result<(), String>
+where
+    A::K: PartialEq,
+{
+    if let Ok(f) = FrequencyMatrix::<A>::new(dense::<f32, A>(rows, d)) {
+        c09_accessors!(A, f32, FrequencyMatrix, f);
+        // a matrix accepted by `new` converts like the same frequencies reached in any other way:
+        // weight over the default background = frequency * (K-1), 0 for the wildcard
+        let w = f.to_weight(None);
+        let u = Background::<A>::uniform();
+        for i in 0..rows {
+            for j in 0..A::K::USIZE {
+                let want = if u.frequencies()[j] == 0.0 { 0.0 } else { f[i][j] / u.frequencies()[j] };
+                if w[i][j].key() != want.key() {
+                    return Err(format!("FrequencyMatrix::new(..).to_weight(None)[{}][{}] = {} but freq/bg = {}", i, j, w[i][j], want));
+                }
+            }
+        }
+        if rows > 0 && !d.iter().any(|x| x.is_nan()) {
+            let mut e = d.to_vec();
+            e[0] = if e[0] == 0.5 { 0.5 + 1.0 / 1024.0 } else { 0.5 };
+            if let Ok(g) = FrequencyMatrix::<A>::new(dense::<f32, A>(rows, &e)) {
+                if g == f {
+                    return Err("FrequencyMatrix: PartialEq holds between matrices that differ in one cell".into());
+                }
+            }
+        }
+    }
+    Ok(())
+}
+
+fn score_alt<A: Alphabet + PartialEq>(rows: usize, d: &[f32], s: &[usize], pos: usize, sc: Result<f32, ()>) -> Result<(), String>
+where
+    A::K: PartialEq,
+{
+    let k = A::K::USIZE;
+    let uni = Background::<A>::uniform();
+    let m = ScoringMatrix::<A>::new(uni.clone(), dense::<f32, A>(rows, d));
+    if mkeys::<f32, A>(m.matrix()) != keys(d) || bgkeys(m.background()) != bgkeys(&uni) {
+        return Err("ScoringMatrix::new: matrix() / background() are not the ones given".into());
+    }
+    c09_accessors!(A, f32, ScoringMatrix, m);
+    // a non-default background is kept too
+    let mut pm = vec![0.0f32; k];
+    pm[rows % (k - 1)] = 1.0;
+    let other = Background::<A>::new(garr::<f32, A>(&pm)).map_err(|_| "Background::new rejects a point mass".to_string())?;
+    let m2 = ScoringMatrix::<A>::new(other.clone(), m.matrix().clone());
+    if bgkeys(m2.background()) != keys(&pm) || mkeys::<f32, A>(m2.matrix()) != keys(d) {
+        return Err("ScoringMatrix::new: a non-default background is not kept".into());
+    }
+    // the sequence by value / by reference / through as_ref(); the matrix through a clone
+    let st = striped::<A>(s);
+    let want = sc.map(|x| x.key());
+    let by_value = guarded(|| m.score_position(st.clone(), pos)).map(|x| x.key());
+    let by_asref = guarded(|| m.score_position(AsRef::<StripedSequence<A, U32>>::as_ref(&st), pos)).map(|x| x.key());
+    let of_clone = guarded(|| m2.score_position(&st, pos)).map(|x| x.key());
+    if by_value != want || by_asref != want || of_clone != want {
+        return Err("score_position (sequence by value / as_ref(), matrix rebuilt with another background) differs".into());
+    }
+    Ok(())
+}
+
+
+/// add the alternative-entry-point clause `f` to the verdict of the main clause
+pub fn alt_on(v: Verdict, on: bool, f: impl FnOnce() -> Result<(), String>) -> Verdict {
+    match v {
+        (a, Some(o), nt) if on && a != "panic" => (a, Some(with_alt(o, f)), nt),
+        v => v,
+    }
+}
+
+fn parse_fb(x: &str) -> f32 {
+    if x == "nan" {
+        f32::NAN
+    } else {
+        f32::from_bits(x.parse().unwrap())
+    }
+}
+
+fn seqs_case<A: Alphabet + PartialEq>(t: &mut Tok) -> Verdict
+where
+    A::K: PartialEq,
+{
+    let line = t.line;
+    alt_on(seqs_main::<A>(t), share(line, 2), || {
+        let mut t = Tok::new(line);
+        let (_, _, n) = (t.next(), t.next(), t.nat());
+        let enc: Vec<EncodedSequence<A>> = t.seqs(n).iter().map(|s| encoded::<A>(s)).collect();
+        seqs_alt::<A>(&enc)
+    })
+}
+
+fn pipe_case<A: Alphabet + PartialEq>(t: &mut Tok) -> Verdict
+where
+    A::K: PartialEq,
+{
+    let line = t.line;
+    alt_on(pipe_main::<A>(t), share(line, 2), || {
+        let k = A::K::USIZE;
+        let mut t = Tok::new(line);
+        let (_, _, rows) = (t.next(), t.next(), t.nat());
+        let counts: Vec<u32> = t.nats(rows * k).iter().map(|x| *x as u32).collect();
+        let p = parse_pseudo(&mut t, k);
+        let bg = parse_bg(&mut t, k);
+        let base = t.f32();
+        let bg2 = parse_bg(&mut t, k);
+        pipe_alt::<A>(rows, &counts, &p, &bg, base, &bg2)
+    })
+}
+
+fn bg_case<A: Alphabet + PartialEq>(t: &mut Tok) -> Verdict
+where
+    A::K: PartialEq,
+{
+    let line = t.line;
+    let v = bg_main::<A>(t);
+    let main: Result<Vec<f32>, ()> = match v.0.strip_prefix("ok ") {
+        Some(bits) => Ok(bits.split(' ').map(parse_fb).collect()),
+        None => Err(()),
+    };
+    alt_on(v, share(line, 2), || bg_alt::<A>(line, &main))
+}
+
+fn fnew_case<A: Alphabet + PartialEq>(t: &mut Tok) -> Verdict
+where
+    A::K: PartialEq,
+{
+    let line = t.line;
+    alt_on(fnew_main::<A>(t), share(line, 2), || {
+        let mut t = Tok::new(line);
+        let (_, _, rows) = (t.next(), t.next(), t.nat());
+        let d = t.f32s(rows * A::K::USIZE);
+        fnew_alt::<A>(rows, &d)
+    })
+}
+
+fn score_case<A: Alphabet + PartialEq>(t: &mut Tok) -> Verdict
+where
+    A::K: PartialEq,
+{
+    let line = t.line;
+    let v = score_main::<A>(t);
+    let sc: Result<f32, ()> = match v.0.rsplit_once("sc ") {
+        Some((_, x)) => Ok(parse_fb(x)),
+        None => Err(()),
+    };
+    alt_on(v, share(line, 2), || {
+        let mut t = Tok::new(line);
+        let (_, _, rows) = (t.next(), t.next(), t.nat());
+        let d = t.f32s(rows * A::K::USIZE);
+        let l = t.nat();
+        let s = t.nats(l);
+        let pos = t.nat();
+        score_alt::<A>(rows, &d, &s, pos, sc)
+    })
 }
 
 // ------------------------------------------------------------------------------------ exec
@@ -1178,6 +1799,7 @@ pub fn run(cfg: &Cfg) {
     });
     let mut out = Out::new(&cfg.out);
     for c in &cases {
+        let alt0 = ALT.load(Ordering::Relaxed);
         let (ans, o, nt) = match std::panic::catch_unwind(|| exec(c)) {
             Ok(v) => v,
             Err(e) => {
@@ -1197,6 +1819,9 @@ pub fn run(cfg: &Cfg) {
             "ok"
         };
         out.stat(&format!("outcome/{}", kind));
+        if ALT.load(Ordering::Relaxed) != alt0 {
+            out.stat("alternative-entry-points");
+        }
         if ans == "panic" {
             out.panics += 1;
         }
